@@ -104,6 +104,13 @@ func (b *RecBackend) RoundTrip(req *http.Request) (*http.Response, error) {
 	return resp, nil
 }
 
+// Forget drops the recorded requests (a volume test must not be charged for the recording).
+func (b *RecBackend) Forget() {
+	b.mu.Lock()
+	b.Reqs = nil
+	b.mu.Unlock()
+}
+
 func (b *RecBackend) Count() int {
 	b.mu.Lock()
 	defer b.mu.Unlock()
